@@ -86,6 +86,16 @@ VARIANTS = [
       lambda nd: _split(nd, after=True),
       note="the checks moved into a helper that runs AFTER the config was stored: a rejected "
            "epoch stays in the schedule", expect_rule="C16.R1"),
+    V("c16_set_epochs_peeks", "M", B, "EngineBuilder.set_epochs",
+      *replace_stmt("self._epochs = EpochManager(epochs)",
+                    "has_post = any(e.type == EpochType.POSTERIOR for e in epochs)\n"
+                    "self._epochs = EpochManager(epochs)"),
+      note="a generator of configs is partly consumed before the manager sees it",
+      expect_rule="C16.R4"),
+    V("c16_config_post_init", "M", E, "EpochConfig",
+      lambda nd: isinstance(nd, ast.FunctionDef) and nd.name == "to_state",
+      lambda nd: stmt("def __post_init__(self):\n    self.thinning = self.thinning or 1") + [nd],
+      note="thinning=0 is rewritten to 1 before it is validated", expect_rule="C16.R1"),
     # ---- twins
     V("c16_t_helper_validates_first", "T", E, "EpochManager",
       lambda nd: isinstance(nd, ast.FunctionDef) and nd.name == "append",
